@@ -37,6 +37,7 @@ type HarnessSpec struct {
 	MaxSteps   int64                `json:"max_steps"`
 	Stubs      []string             `json:"stubs"`
 	Unstub     []string             `json:"unstub"` // externals this harness runs as real code
+	EnumInts   bool                 `json:"enum_ints"` // format symbolic ints by enumerating their feasible values
 	Sched      bool                 `json:"sched"`
 	MaxPreempt int                  `json:"max_preempt"`
 	Note       string               `json:"note"`
